@@ -76,24 +76,32 @@ func runNL1(c *load.Ctx, r *report.RuleResult) {
 		if load.FuncPkgRel(f) != pkgLoader {
 			continue
 		}
+		// the methods of the rule loader (and their closures): a loader converted to the interface there is
+		// one the rule loader installs, whether it stores it itself or hands it to a helper of its own
+		owner := f
+		for owner.Parent() != nil {
+			owner = owner.Parent()
+		}
+		recv := owner.Signature.Recv()
+		if recv == nil {
+			continue
+		}
+		rt := recv.Type()
+		if pt, ok := rt.(*types.Pointer); ok {
+			rt = pt.Elem()
+		}
+		if rt != types.Type(rlT) {
+			continue
+		}
 		for _, b := range f.Blocks {
 			for _, ins := range b.Instrs {
-				st, ok := ins.(*ssa.Store)
-				if !ok {
+				mi, ok := ins.(*ssa.MakeInterface)
+				if !ok || !types.Identical(mi.Type(), ifaceTN.Type()) {
 					continue
 				}
-				fa, ok := st.Addr.(*ssa.FieldAddr)
-				if !ok || fieldName(fa.X.Type(), fa.Field) != "embeddedValueLoader" {
-					continue
-				}
-				if pt, ok := fa.X.Type().Underlying().(*types.Pointer); !ok || pt.Elem() != types.Type(rlT) {
-					continue
-				}
-				if mi, ok := st.Val.(*ssa.MakeInterface); ok {
-					if pt, ok := mi.X.Type().(*types.Pointer); ok {
-						if nt, ok := pt.Elem().(*types.Named); ok {
-							installed[nt] = true
-						}
+				if pt, ok := mi.X.Type().(*types.Pointer); ok {
+					if nt, ok := pt.Elem().(*types.Named); ok {
+						installed[nt] = true
 					}
 				}
 			}
